@@ -877,7 +877,12 @@ func (g *Gen) typeAssert(x *ssa.TypeAssert, st *State) {
 		g.vals[x] = Val{Tup: []Val{rv, {S: ok, Sort: "Bool", G: types.Typ[types.Bool]}}}
 		return
 	}
-	g.assert(st, "safe", "typeassert", ok, "type assertion holds", x.Pos())
+	if g.c != nil && g.c.NoAssertCheck {
+		g.nosafe++
+		g.assume(st, ok)
+	} else {
+		g.assert(st, "safe", "typeassert", ok, "type assertion holds", x.Pos())
+	}
 	g.vals[x] = rv
 }
 
